@@ -474,6 +474,7 @@ func inotifyExhausted(err error) bool {
 func Exec(c Case) (res core.Result) {
 	defer func() {
 		if r := recover(); r != nil {
+			core.HarnessPanic(r)
 			res = core.Result{Viol: core.Violate("C10/panic", "file plugin panicked: %v", r)}
 		}
 	}()
@@ -809,8 +810,10 @@ func execRefresh(c Case) (res core.Result) {
 				{
 					m := bigProbe
 					big := []byte(bigText)
-					if len(big) < fileLen {
-						big = append(big, []byte("#"+strings.Repeat("b", fileLen-len(big)-2)+"\n")...)
+					if gap := fileLen - len(big); gap == 1 {
+						big = append(big, '\n')
+					} else if gap >= 2 {
+						big = append(big, []byte("#"+strings.Repeat("b", gap-2)+"\n")...)
 					}
 					fileLen = len(big)
 					if err := writeInPlace(path, big); err != nil {
@@ -820,9 +823,11 @@ func execRefresh(c Case) (res core.Result) {
 					bigModel = m
 				}
 			}
-			if len(data) < fileLen {
+			if gap := fileLen - len(data); gap == 1 {
+				data = append(data, '\n') // an empty line
+			} else if gap >= 2 {
 				// keep the file length: never shrink (an earlier append made it longer)
-				data = append(data, []byte("#"+strings.Repeat("q", fileLen-len(data)-2)+"\n")...)
+				data = append(data, []byte("#"+strings.Repeat("q", gap-2)+"\n")...)
 			}
 			if len(data) != fileLen {
 				res.Skipped = "bad-case"
